@@ -103,17 +103,37 @@ def render_queries(case):
         cs[k] = load_style(d)
     user = [[k, dump_style(v)] for k, v in cs.items() if base.get(k) is not v]
     outs = []
-    for marker, name, value in case['queries']:
-        try:
-            if marker:
-                r = cs.render_marker(_name(name), value)
-            else:
-                r = cs.render_value(value, _name(name))
-            outs.append(['ok', r])
-        except RecursionError:
-            outs.append(['rec', None])
-        except Exception as exc:   # noqa
-            outs.append(['exc', '%s: %s' % (type(exc).__name__, exc)])
+    import signal
+
+    class QueryTimeout(BaseException):
+        pass
+
+    def on_timer(signum, frame):
+        raise QueryTimeout()
+    old = signal.signal(signal.SIGVTALRM, on_timer)
+    try:
+        for marker, name, value in case['queries']:
+            # a query that does not return within 0.3 s of CPU is a non-terminating loop (only possible with
+            # dictionaries no stylesheet produces): reported like RecursionError
+            signal.setitimer(signal.ITIMER_VIRTUAL, 0.3)
+            try:
+                if marker:
+                    r = cs.render_marker(_name(name), value)
+                else:
+                    r = cs.render_value(value, _name(name))
+                signal.setitimer(signal.ITIMER_VIRTUAL, 0)
+                outs.append(['ok', r])
+            except (RecursionError, QueryTimeout):
+                signal.setitimer(signal.ITIMER_VIRTUAL, 0)
+                outs.append(['rec', None])
+            except Exception as exc:   # noqa
+                signal.setitimer(signal.ITIMER_VIRTUAL, 0)
+                if type(exc).__name__ == 'CaseTimeout':
+                    raise
+                outs.append(['exc', '%s: %s' % (type(exc).__name__, exc)])
+    finally:
+        signal.setitimer(signal.ITIMER_VIRTUAL, 0)
+        signal.signal(signal.SIGVTALRM, old)
     return {'user': user, 'outs': outs}
 
 
